@@ -414,7 +414,13 @@ def run_property(modname, argv):
         'notes': ctx.notes,
         'exhaustive': bool(getattr(mod, 'EXHAUSTIVE', False)),
     }
-    ev = {'property_id': pid, 'tier': tier, 'seed': seed, 'level': 'proof', 'coverage': cov,
+    level = 'proof'
+    if cov['discharged'] < 1:
+        # nothing was discharged in this run (broken build/translation): not proof-level evidence
+        level = 'other'
+        cov['explanation'] = ('the proof obligations did not check against the current source in this run (see "broken"); '
+                              'only the failing-input search on the real code ran')
+    ev = {'property_id': pid, 'tier': tier, 'seed': seed, 'level': level, 'coverage': cov,
           'assumptions': list(getattr(mod, 'ASSUMPTIONS', [])), 'wall_s': round(wall, 2),
           'violations': 1 if status else 0}
     with open(evid_path, 'w') as f:
